@@ -50,11 +50,24 @@ def _sql_text(node, fn=None, depth=0):
 class ClassEffects:
     """Effect classes of the methods of one class hierarchy (real class + repo bases)."""
 
-    def __init__(self, src, modname, clsname, cache_fields=()):
+    def __init__(self, src, modname, clsname, cache_fields=(), graph=None):
         self.src, self.modname, self.clsname = src, modname, clsname
+        self.graph = graph
         self.cache_fields = set(cache_fields)
         self.methods = {}       # name -> FunctionDef (first found along the bases)
         self._collect(modname, clsname, set())
+        self.container_fields = set()
+        for fn in self.methods.values():
+            if fn.name in ("__init__", "_init", "__post_init__"):
+                for node in ast.walk(fn):
+                    if isinstance(node, (ast.Assign, ast.AnnAssign)):
+                        for t in (node.targets if isinstance(node, ast.Assign) else [node.target]):
+                            f = self._self_field(t)
+                            v = node.value
+                            if f and f not in self.cache_fields and isinstance(v, (ast.Dict, ast.Set, ast.List, ast.DictComp, ast.SetComp, ast.ListComp)) or \
+                                    (f and f not in self.cache_fields and isinstance(v, ast.Call) and isinstance(v.func, ast.Name) and
+                                     v.func.id in ("dict", "set", "list", "defaultdict", "OrderedDict", "deque", "Counter")):
+                                self.container_fields.add(f)
         self.direct = {}        # name -> list of reasons (direct writes)
         self.calls = {}         # name -> set of self-method names called
         for n, fn in self.methods.items():
@@ -71,9 +84,12 @@ class ClassEffects:
             cls = self.src.klass(m, c)
         except Exception:
             return
+        local = {}
         for node in cls.body:
-            if isinstance(node, (ast.FunctionDef, ast.AsyncFunctionDef)) and node.name not in self.methods:
-                self.methods[node.name] = node
+            if isinstance(node, (ast.FunctionDef, ast.AsyncFunctionDef)):
+                local[node.name] = node          # the last definition in a class body wins (@overload stubs come first)
+        for n, node in local.items():
+            self.methods.setdefault(n, node)
         for bm, bc in self.src.class_bases(m, c):
             self._collect(bm, bc, seen)
 
@@ -85,8 +101,119 @@ class ClassEffects:
             return node.attr
         return None
 
+    # ---- aliases of view fields: `x = self.f.get(k, set())` hands out the stored container itself, `x &= ...` then edits the field
+    FRESH_CALLS = {"copy", "intersection", "union", "difference", "symmetric_difference", "keys", "items", "values", "sorted", "list", "set",
+                   "dict", "tuple", "frozenset", "len", "deepcopy"}
+    INPLACE_ALWAYS = (ast.BitAnd, ast.BitOr, ast.BitXor)
+    INPLACE_CONTAINER = (ast.Sub, ast.Add)
+
+    def _field_rooted(self, node, env):
+        """field name when `node` evaluates to (a part of) the container stored in self.<field>, without a copy"""
+        if isinstance(node, ast.Name):
+            return env.get(node.id)
+        if isinstance(node, ast.Subscript):
+            return self._field_rooted(node.value, env)
+        if isinstance(node, ast.Attribute):
+            if isinstance(node.value, ast.Name) and node.value.id == "self":
+                return node.attr if node.attr in self.container_fields else None
+            return None
+        if isinstance(node, ast.Call) and isinstance(node.func, ast.Attribute) and node.func.attr in ("get", "setdefault", "pop", "popitem"):
+            return self._field_rooted(node.func.value, env)      # an element of the stored mapping (the default, when taken, is fresh: may-alias)
+        if isinstance(node, ast.IfExp):
+            return self._field_rooted(node.body, env) or self._field_rooted(node.orelse, env)
+        if isinstance(node, ast.BoolOp):
+            for v in node.values:
+                f = self._field_rooted(v, env)
+                if f:
+                    return f
+        return None
+
+    def _alias_writes(self, fn):
+        reasons = []
+
+        def assign(target, value, env):
+            if isinstance(target, ast.Name):
+                f = self._field_rooted(value, env) if value is not None else None
+                if f:
+                    env[target.id] = f
+                else:
+                    env.pop(target.id, None)
+            elif isinstance(target, (ast.Tuple, ast.List)):
+                for t in target.elts:
+                    assign(t, None, env)
+
+        def expr_effects(node, env):
+            for sub in ast.walk(node):
+                if isinstance(sub, ast.Call) and isinstance(sub.func, ast.Attribute) and isinstance(sub.func.value, ast.Name) \
+                        and sub.func.value.id in env and sub.func.attr in MUTATORS:
+                    reasons.append(f"{sub.func.value.id}.{sub.func.attr}() on an alias of self.{env[sub.func.value.id]} (line {sub.lineno})")
+
+        def block(stmts, env):
+            for st in stmts:
+                if isinstance(st, ast.Assign):
+                    expr_effects(st.value, env)
+                    for t in st.targets:
+                        if isinstance(t, ast.Subscript) and isinstance(t.value, ast.Name) and t.value.id in env:
+                            reasons.append(f"item assignment on {t.value.id}, an alias of self.{env[t.value.id]} (line {st.lineno})")
+                        assign(t, st.value, env)
+                elif isinstance(st, ast.AnnAssign):
+                    if st.value is not None:
+                        expr_effects(st.value, env)
+                    assign(st.target, st.value, env)
+                elif isinstance(st, ast.AugAssign):
+                    expr_effects(st.value, env)
+                    if isinstance(st.target, ast.Name) and st.target.id in env and \
+                            (isinstance(st.op, self.INPLACE_ALWAYS) or isinstance(st.op, self.INPLACE_CONTAINER)):
+                        reasons.append(f"in-place {type(st.op).__name__} on {st.target.id}, an alias of self.{env[st.target.id]} (line {st.lineno})")
+                elif isinstance(st, ast.Delete):
+                    for t in st.targets:
+                        if isinstance(t, ast.Subscript) and isinstance(t.value, ast.Name) and t.value.id in env:
+                            reasons.append(f"del on {t.value.id}, an alias of self.{env[t.value.id]} (line {st.lineno})")
+                elif isinstance(st, ast.If):
+                    expr_effects(st.test, env)
+                    e1, e2 = dict(env), dict(env)
+                    block(st.body, e1)
+                    block(st.orelse, e2)
+                    env.clear()
+                    env.update({**e1, **e2})          # may-alias after the join
+                elif isinstance(st, (ast.For, ast.AsyncFor)):
+                    expr_effects(st.iter, env)
+                    it = st.iter
+                    if isinstance(it, ast.Call) and isinstance(it.func, ast.Attribute) and it.func.attr in ("values", "items"):
+                        f = self._field_rooted(it.func.value, env)
+                        if f:       # the elements of a stored mapping are the stored inner containers
+                            for t in ([st.target] if isinstance(st.target, ast.Name) else getattr(st.target, "elts", [])[-1:]):
+                                if isinstance(t, ast.Name):
+                                    env[t.id] = f
+                    else:
+                        assign(st.target, None, env)
+                    for _ in range(2):
+                        block(st.body, env)
+                    block(st.orelse, env)
+                elif isinstance(st, ast.While):
+                    for _ in range(2):
+                        expr_effects(st.test, env)
+                        block(st.body, env)
+                elif isinstance(st, (ast.With, ast.AsyncWith)):
+                    block(st.body, env)
+                elif isinstance(st, ast.Try):
+                    block(st.body, env)
+                    for h in st.handlers:
+                        block(h.body, dict(env))
+                    block(st.orelse, env)
+                    block(st.finalbody, env)
+                elif isinstance(st, (ast.Expr, ast.Return)):
+                    if st.value is not None:
+                        expr_effects(st.value, env)
+                elif isinstance(st, (ast.FunctionDef, ast.AsyncFunctionDef, ast.ClassDef)):
+                    continue
+        block(fn.body, {})
+        return sorted(set(reasons))
+
     def _scan(self, fn):
         reasons, calls = [], set()
+        if fn.name != "__init__":
+            reasons.extend(self._alias_writes(fn))
         for node in ast.walk(fn):
             if isinstance(node, (ast.Assign, ast.AugAssign, ast.AnnAssign, ast.Delete)):
                 targets = node.targets if isinstance(node, (ast.Assign, ast.Delete)) else [node.target]
@@ -113,6 +240,18 @@ class ClassEffects:
                         reasons.append("starts a writer thread")
                 elif isinstance(node.func, ast.Name) and node.func.id in ("delete_tables_with_prefix",):
                     reasons.append("delete_tables_with_prefix()")
+                g = getattr(self, "graph", None)
+                if g is not None:
+                    chain = g._chain(node.func) if isinstance(node.func, ast.Attribute) else None
+                    tgt = None
+                    if isinstance(node.func, ast.Name) and node.func.id in g.methods and node.func.id[0].isupper():
+                        tgt = (node.func.id, "__init__")
+                    elif chain is not None and chain[:-1] != ["self"] and not any(p.lstrip("_") in g.roles for p in chain[1:-1]):
+                        tgt = g.resolve(None, chain)
+                    if tgt and tgt[1] in g.methods.get(tgt[0], {}):
+                        why = g.writes(tgt[0], tgt[1])
+                        if why:
+                            reasons.append(f"calls {tgt[0]}.{tgt[1]}() which reaches a backend write [{why[0]}]")
         return reasons, calls
 
     def _classify(self, name, stack):
@@ -131,14 +270,14 @@ class ClassEffects:
         return self.effect[name]
 
 
-def component_effects(src, components: dict, cache_fields: dict):
+def component_effects(src, components: dict, cache_fields: dict, graph=None):
     """components: role -> [(module, class), ...] implementations.  Returns role -> {method: (effect, reasons)} where a method
     is `reads` only if it is `reads` in every implementation."""
     out = {}
     for role, impls in components.items():
         merged = {}
         for (m, c) in impls:
-            ce = ClassEffects(src, m, c, cache_fields.get(role, ()))
+            ce = ClassEffects(src, m, c, cache_fields.get(role, ()), graph=graph)
             for meth, (eff, why) in ce.effect.items():
                 cur = merged.get(meth)
                 if cur is None or (eff == "writes" and cur[0] == "reads"):
@@ -260,3 +399,111 @@ def object_member_calls(src, classes, roles):
             if acc:
                 out.setdefault(name, set()).update(acc)
     return out
+
+
+class ObjectGraph:
+    """Which methods of the domain objects (the app, tasks, calls, invocations) can end in a `writes` method of a backend component.
+
+    Calls are resolved by receiver shape: `self.m()` stays in the class, a receiver ending in `app` is the application object,
+    `Task.from_id(..)` / `Task(..)` name a class, receivers ending in `task` / `call` / `invocation` are those objects.  Calls on
+    receivers the shape does not identify are not followed (stated in the evidence as a limit of the analysis)."""
+
+    RECEIVER_HINTS = {"app": "Pynenc", "task": "Task", "call": "Call", "invocation": "DistributedInvocation", "inv": "DistributedInvocation"}
+
+    def __init__(self, src, classes: dict, role_effects: dict, roles):
+        self.src, self.roles, self.eff = src, set(roles), role_effects
+        self.methods = {}      # alias -> {name: FunctionDef}
+        for alias, (m, c) in classes.items():
+            try:
+                self.methods[alias] = dict(ClassEffects(src, m, c).methods)
+            except Exception:      # noqa: BLE001
+                self.methods[alias] = {}
+        self.direct, self.edges = {}, {}
+        for alias, meths in self.methods.items():
+            for name, fn in meths.items():
+                self.direct[(alias, name)], self.edges[(alias, name)] = self._scan(alias, fn)
+        self.memo = {}
+
+    @staticmethod
+    def _chain(node):
+        chain, cur = [], node
+        while isinstance(cur, ast.Attribute):
+            chain.append(cur.attr)
+            cur = cur.value
+        if isinstance(cur, ast.Name):
+            chain.append(cur.id)
+            return list(reversed(chain))
+        if isinstance(cur, ast.Call):      # e.g. get_pynenc_instance().get_task(...)
+            return ["<call>"] + list(reversed(chain))
+        return None
+
+    def resolve(self, alias, chain):
+        """(target alias, method) for a call whose callee is the attribute chain, or None"""
+        if chain is None or len(chain) < 2:
+            return None
+        recv, meth = chain[:-1], chain[-1]
+        if recv == ["self"] or recv == ["cls"]:
+            return (alias, meth) if alias else None
+        if len(recv) == 1 and recv[0] in self.methods and recv[0][0].isupper():
+            return (recv[0], meth)
+        hint = self.RECEIVER_HINTS.get(recv[-1].lstrip("_"))
+        if hint and hint in self.methods:
+            return (hint, meth)
+        return None
+
+    def _scan(self, alias, fn):
+        direct, edges = [], set()
+        for node in ast.walk(fn):
+            if isinstance(node, ast.Call):
+                if isinstance(node.func, ast.Name) and node.func.id in self.methods and node.func.id[0].isupper():
+                    edges.add((node.func.id, "__init__"))
+                    continue
+                chain = self._chain(node.func)
+                if chain is None:
+                    continue
+                hit = False
+                for i, part in enumerate(chain[:-1]):
+                    role = part.lstrip("_")
+                    if role in self.roles and i >= 1:
+                        e = self.eff.get(role, {}).get(chain[i + 1])
+                        if e is not None and e[0] == "writes":
+                            direct.append(f"{'.'.join(chain)}() writes (line {node.lineno})")
+                        hit = True
+                        break
+                if not hit:
+                    tgt = self.resolve(alias, chain)
+                    if tgt and tgt[1] in self.methods.get(tgt[0], {}):
+                        edges.add(tgt)
+            elif isinstance(node, ast.Attribute) and isinstance(node.value, ast.Name) and node.value.id == "self" and alias and \
+                    node.attr in self.methods.get(alias, {}) and isinstance(node.ctx, ast.Load):
+                edges.add((alias, node.attr))          # property access (or a bound method taken as a value)
+        return direct, edges
+
+    def writes(self, alias, name, stack=frozenset()):
+        """list of reasons (empty: no backend write reachable)"""
+        key = (alias, name)
+        if key in self.memo:
+            return self.memo[key]
+        if key in stack or key not in self.direct:
+            return []
+        reasons = list(self.direct[key])
+        for tgt in sorted(self.edges[key]):
+            sub = self.writes(tgt[0], tgt[1], stack | {key})
+            if sub:
+                reasons.append(f"{tgt[0]}.{tgt[1]} -> {sub[0]}")
+        if not stack:
+            self.memo[key] = reasons
+        return reasons
+
+    def calls_in(self, fn, alias=None):
+        """(target alias, method, lineno) for the object-level calls in a function outside the classes (a monitor view)"""
+        out = []
+        for node in ast.walk(fn):
+            if isinstance(node, ast.Call):
+                chain = self._chain(node.func)
+                if chain is None or any(p.lstrip("_") in self.roles for p in chain[1:-1]):
+                    continue
+                tgt = self.resolve(alias, chain)
+                if tgt and tgt[1] in self.methods.get(tgt[0], {}):
+                    out.append((tgt[0], tgt[1], node.lineno))
+        return out
